@@ -25,7 +25,7 @@ EXPL = ("MPT/GUARD/SIB rules on compact(): dedup + total sort dominate the merge
 def run(ctx):
     facts, run = ctx.facts, ctx.run
     run.explanation = EXPL
-    run.rule_text = "C08.K1 MPT normalise-first, K2 GUARD verified sibling run, K3 TAB/SIB run length, K4 PROV pass-through"
+    run.rule_text = "C08.K1 MPT normalise-first, K2 GUARD verified sibling run, K3 TAB/SIB run length, K4 PROV pass-through, K5 MPT re-normalise every pass result"
     if COMPACT not in facts.fns:
         run.missing("C08", COMPACT)
         return
@@ -116,6 +116,23 @@ def run(ctx):
         pass
     run.inst("C08.K1", "dedup", src_param and (dedup or bool(dedups_after_sort)), "working vector = %s" % " <- ".join(n.split("::")[-1] + ("<HashSet>" if "HashSet" in i else "") for n, i in names), w)
     run.inst("C08.K1", "total-sort", bool(sorts) or via_btree, "sorted before the first pass by %s" % ([c.callee.split("::")[-1] for c in sorts] or ("BTreeSet order" if via_btree else "nothing")), w)
+    # K5: a merged parent may equal a cell that is already there (input holding a cell and all of its children) and does not
+    # keep the ID order (a face sorts below its own quintants): every pass result is sorted and de-duplicated again before
+    # it is scanned or returned - a total sort, then Vec::dedup, on every way from the hand-over to the loop head
+    hand = []
+    for b_ in sorted(outer.body):
+        for i_, st_ in enumerate(ft.blocks[b_]["stmts"]):
+            if st_["k"] == "assign" and st_["place"]["local"] == cur[3] and not st_["place"]["proj"]:
+                hand.append(b_)
+    backs = [p_ for p_ in cfg.pred[outer_head] if p_ in outer.body]
+    in_sorts = [c for c in mutators_of(ft, cur_key) if c.callee and (c.callee.endswith("::sort_unstable") or c.callee.endswith("::sort")) and c.block in outer.body]
+    in_dedups = [c for c in mutators_of(ft, cur_key) if c.callee and c.callee.endswith("::dedup") and c.block in outer.body]
+    ok5 = bool(hand) and bool(backs) and any(
+        all(cfg.dominates(h_, s_.block) for h_ in hand) and cfg.dominates(s_.block, d_.block) and s_.block != d_.block and all(cfg.dominates(d_.block, p_) for p_ in backs)
+        for s_ in in_sorts for d_ in in_dedups)
+    run.inst("C08.K5", "pass-result-renormalised", ok5,
+             "each pass hands its result over at %d place(s); sorted again by %s and de-duplicated by %s before the next scan / the return" % (
+                 len(hand), [c.callee.split("::")[-1] for c in in_sorts] or "nothing", [c.callee.split("::")[-1] for c in in_dedups] or "nothing"), w)
     late = [c for c in ft.calls() if c.block in outer.body and any(x == ("param", 1) for a in c.args for x in walk(a))]
     run.inst("C08.K1", "input-not-reread", not late, "the raw input slice is not read inside the merge passes (%d reads)" % len(late), w)
 
